@@ -233,6 +233,10 @@ def coq_step(step, obs, ids, stdlib):
         return "Ask (QResolveForFile %s %s %s)" % (L.cpath(step["path"]), L.cstr(step["name"]), L.coptdef(obs))
     if k == "is_available":
         return "Ask (QIsAvailable %s %s %s)" % (L.cpath(step["path"]), L.cstr(step["name"]), L.cbool(obs))
+    if k == "goto_or_def":
+        return "Ask (QGotoOrDef %s %s %s %s)" % (L.cpath(step["path"]), L.cN(step["line"]), L.cN(step["col"]), L.coptdef(obs))
+    if k == "name_at":
+        return "Ask (QNameAt %s %s %s %s)" % (L.cpath(step["path"]), L.cN(step["line"]), L.cN(step["col"]), L.copt(obs, L.cstr))
     if k == "dump":
         return "Ask (QDump %s)" % L.cdump(obs, ids)
     raise ValueError(k)
